@@ -114,6 +114,7 @@ structure Cfg (R : Type) where
   dmax : List R                         -- `_defaultMax`
   best : Nat                            -- label of the record `(bestSolution, bestEnergy)` (Powell's Finalize logs it)
   fcalls : Nat                          -- `_fcalls[0]`
+  bestIdx : Nat                         -- `list(self.popEnergy).index(self.bestEnergy)` (no Set* touches the energies)
   -- recorded settings
   reducer : Option (Nat × Bool)         -- `_reducer`: (callable, arraylike) ; `none` = None
   penalty : Option Nat                  -- `_penalty`     (`none` = `lambda x: 0.0`)
@@ -130,6 +131,9 @@ structure Cfg (R : Type) where
   mapc : MapC
   sigint : Bool                         -- `_handle_sigint`
   pop : Pop R
+  -- ghost: how often `_decorate_objective` has run on this solver (observed from the harness: a new wrapped
+  -- objective `_cost[0]` appears).  No `Set*` is supposed to change it: decoration is deferred to the next `Step`.
+  ndec : Nat := 0
   deriving Inhabited
 
 /-- the `Set*` methods (and the two signal-handler switches) with their arguments -/
@@ -343,6 +347,100 @@ def raisedAfter [Add R] [Sub R] [Mul R] [Neg R] [OfNat R 0] [OfNat R 1] [BEq R] 
 def rngConsumed [Add R] [Sub R] [Mul R] [Neg R] [OfNat R 0] [OfNat R 1] [BEq R] [LT R] [DecidableLT R]
     (u : Nat → R) (s : Cfg R) (l : List (Op R)) : Nat :=
   (cfgAfter u s l).pop.rngPos - s.pop.rngPos
+
+/-! ### the deferred decoration: what the next `Step` does (`_bootstrap_objective` -> `_decorate_objective`)
+
+`_update_objective()` (abstract_solver.py l.883-890) is `if False: # trigger immediately ... else: self.Finalize()`:
+a `Set*` on a LIVE solver only records the setting and clears `_live`; the objective is re-decorated by the next
+`Step` (`_bootstrap_objective` l.928-942), exactly once however many `Set*` calls were made.  Under strict ranges a
+decoration moves the population into the box and - once a generation has run - draws one `random.uniform` per
+member other than the best one: WHEN and HOW OFTEN the decoration runs is visible in the trajectory of a stochastic
+solver. -/
+
+/-- numpy `x.clip(min, max)` on one coordinate: `MIN(MAX(x, min), max)` with `MAX(a, b) = a > b ? a : b` and
+    `MIN(a, b) = a < b ? a : b` (numpy `_NPY_CLIP`; a coordinate equal to a bound becomes the bound) -/
+def clipCoord [LT R] [DecidableLT R] (lo hi x : R) : R :=
+  if (if lo < x then x else lo) < hi then (if lo < x then x else lo) else hi
+
+/-- `_clipGuessWithinRangeBoundary(x0, at)` (abstract_solver.py l.443-462).  `at`: clip at the bounds;
+    otherwise every coordinate the clipping would change is replaced by `random.uniform(min, max)` - ONE
+    `random.random()` value `r` for the whole vector (`a + (b - a) * random()` on arrays), drawn whether or not
+    a coordinate is outside -/
+def clipGuess [Add R] [Sub R] [Mul R] [BEq R] [LT R] [DecidableLT R] (smin smax : List R) (at_ : Bool) (r : R)
+    (x : List R) : List R :=
+  if smin.isEmpty = true then x                                          -- l.453 `if not len(self._strictMin)`
+  else (x.zip (smin.zip smax)).map fun t =>
+    if at_ = true then clipCoord t.2.1 t.2.2 t.1                         -- l.456-458
+    else if (clipCoord t.2.1 t.2.2 t.1 != t.1) = true then uniform r t.2.1 t.2.2 else t.1   -- l.460-461
+
+/-- the loop `for i in range(self.nPop): population[i] = _clipGuessWithinRangeBoundary(population[i],
+    (not ngen) or (i == indx))` (abstract_solver.py l.910-913, differential_evolution.py l.236-241 / l.483-488):
+    members from index `i` on, `pos` = position in the random stream; returns the members and the new position -/
+def decoratePop [Add R] [Sub R] [Mul R] [BEq R] [LT R] [DecidableLT R] (u : Nat → R) (gens bestIdx : Nat)
+    (smin smax : List R) : List (List R) → Nat → Nat → List (List R) × Nat
+  | [], _, pos => ([], pos)
+  | x :: xs, i, pos =>
+    if (decide (gens = 0) || decide (i = bestIdx)) = true then
+      (clipGuess smin smax true (u pos) x :: (decoratePop u gens bestIdx smin smax xs (i + 1) pos).1,
+       (decoratePop u gens bestIdx smin smax xs (i + 1) pos).2)
+    else if smin.isEmpty = true then
+      (x :: (decoratePop u gens bestIdx smin smax xs (i + 1) pos).1,
+       (decoratePop u gens bestIdx smin smax xs (i + 1) pos).2)
+    else
+      (clipGuess smin smax false (u pos) x :: (decoratePop u gens bestIdx smin smax xs (i + 1) (pos + 1)).1,
+       (decoratePop u gens bestIdx smin smax xs (i + 1) (pos + 1)).2)
+
+/-- `_decorate_objective(cost)` of AbstractSolver (l.892-926; Powell uses it as it is) and of the two DE solvers
+    (differential_evolution.py l.220-252 / l.464-498): under strict ranges the population is moved into the box,
+    the wrapped objective is stored and the solver is live.  (NelderMeadSimplexSolver overrides it - it rebuilds
+    the simplex, scipy_optimize.py l.184-222 - and the ensembles never decorate themselves: the correspondence
+    run sends `boot` to DE, DE2 and Powell solvers only.) -/
+def Cfg.decorate [Add R] [Sub R] [Mul R] [BEq R] [LT R] [DecidableLT R] (u : Nat → R) (s : Cfg R) : Cfg R :=
+  { s with pop := (if s.ranges.useStrict = true then
+                     { population := (decoratePop u (gensOf s.kind s.stepmon s.hist) s.bestIdx s.ranges.smin
+                                        s.ranges.smax s.pop.population 0 s.pop.rngPos).1,
+                       rngPos := (decoratePop u (gensOf s.kind s.stepmon s.hist) s.bestIdx s.ranges.smin
+                                    s.ranges.smax s.pop.population 0 s.pop.rngPos).2 }
+                   else s.pop),
+           cost := { s.cost with decorated := true }, live := true, ndec := s.ndec + 1 }
+
+/-- `_bootstrap_objective(cost)` (l.928-942), the first thing `Step(cost)` does: a live solver whose stored cost is
+    `cost` keeps its decorated objective; otherwise `SetObjective(cost)` and ONE decoration -/
+def bootstrap [Add R] [Sub R] [Mul R] [Neg R] [OfNat R 0] [OfNat R 1] [BEq R] [LT R] [DecidableLT R]
+    (u : Nat → R) (s : Cfg R) (c : Nat) : Cfg R :=
+  if (decide (s.cost.raw = some c) && s.live) = true then s
+  else (own u s (.setObjective c)).1.decorate u
+
+/-- what a user does to a solver between iterations: a `Set*` call, or (the prelude of) a `Step` -/
+inductive Act (R : Type) where
+  | set (op : Op R)
+  | boot (c : Nat)
+  deriving Inhabited
+
+def act [Add R] [Sub R] [Mul R] [Neg R] [OfNat R 0] [OfNat R 1] [BEq R] [LT R] [DecidableLT R]
+    (u : Nat → R) (s : Cfg R) : Act R → Cfg R × Bool
+  | .set op => apply u s op
+  | .boot c => (bootstrap u s c, false)
+
+def actsAfter [Add R] [Sub R] [Mul R] [Neg R] [OfNat R 0] [OfNat R 1] [BEq R] [LT R] [DecidableLT R]
+    (u : Nat → R) (s : Cfg R) (l : List (Act R)) : Cfg R :=
+  l.foldl (fun s a => (act u s a).1) s
+
+def raisedActs [Add R] [Sub R] [Mul R] [Neg R] [OfNat R 0] [OfNat R 1] [BEq R] [LT R] [DecidableLT R]
+    (u : Nat → R) (s : Cfg R) : List (Act R) → List Bool
+  | [] => []
+  | a :: l => (act u s a).2 :: raisedActs u (act u s a).1 l
+
+/-- NOT the code: `_update_objective` with its dormant branch enabled for live solvers (`if self._live and
+    self._cost[1] is not None: self._decorate_objective(...)`, "trigger immediately", l.886-887).  Only used for
+    the witness that shows why the decoration has to be deferred (Props/C07 `eager_decoration_witness`). -/
+def applyEager [Add R] [Sub R] [Mul R] [Neg R] [OfNat R 0] [OfNat R 1] [BEq R] [LT R] [DecidableLT R]
+    (u : Nat → R) (s : Cfg R) (op : Op R) : Cfg R × Bool :=
+  if blocked s.kind op = true then (s, true)
+  else if (fin s.kind op && !(own u s op).2) = true then
+    ((if ((own u s op).1.live && (own u s op).1.cost.raw.isSome) = true then (own u s op).1.decorate u
+      else (own u s op).1.finalize), (own u s op).2)
+  else own u s op
 
 /-! ### the footprint table -/
 
